@@ -34,7 +34,9 @@ type jsonSubject struct {
 }
 
 var jsonSubjects = []jsonSubject{
-	{"sigmajs.Node", func(id, aux string, a map[string]interface{}) interface{} { return &sigmajs.Node{ID: id, Attributes: a} }, func() interface{} { return new(sigmajs.Node) }},
+	{"sigmajs.Node", func(id, aux string, a map[string]interface{}) interface{} {
+		return &sigmajs.Node{ID: id, Attributes: a}
+	}, func() interface{} { return new(sigmajs.Node) }},
 	{"sigmajs.Edge", func(id, aux string, a map[string]interface{}) interface{} {
 		return &sigmajs.Edge{ID: id, Source: aux, Target: id + aux, Attributes: a}
 	}, func() interface{} { return new(sigmajs.Edge) }},
